@@ -154,6 +154,8 @@ def _match_groups(ctx, rule, title, fi, what_label, A, B, comps, describe):
                         asg[inner.key] = False
                 elif ca is None or ca.kind != 'and':
                     asg[c.key] = True
+            # (the guard is also carried INTO the compared value: a condition that only becomes the guard after other
+            #  conditions are decided -- an index that wraps only when the function has already raised -- is then decided too)
             if not asg:
                 return x
             return [(lab, t if lab == 'guard' else T.assume(t, asg)) for lab, t in x]
@@ -246,7 +248,10 @@ def _match_groups(ctx, rule, title, fi, what_label, A, B, comps, describe):
             left2 += la
             rest2 += lb
     left, rest_b = left2, rest2
-    if RESTRUCTURED_UNDECIDED[0] and len(left) != len(rest_b):
+    # (re-binding of loop-carried LOCALS may be regrouped either way; for effects that leave the function -- stores, calls --
+    #  only FEWER statements than the reference count as a reorganisation: more are extra effects and are decisive)
+    local_only = what_label in ('loop-carried update', 'loop')
+    if RESTRUCTURED_UNDECIDED[0] and (len(left) != len(rest_b) if (local_only or RESTRUCTURED_UNDECIDED[0] == 'any') else len(left) < len(rest_b)):
         # a different NUMBER of unmatched events: the statements were regrouped (loop nest restructured), a one-to-one
         # comparison with the reference walk does not apply -- not decided, rather than reporting arbitrary pairs
         ctx.ob(rule, f'{title}: {what_label}s are organised differently from the reference definition (not comparable one to one)',
@@ -269,7 +274,20 @@ def _match_groups(ctx, rule, title, fi, what_label, A, B, comps, describe):
     for n, (ea, xa) in enumerate(left):
         if n < len(ordered) and ordered[n] is not None and len(ordered[n][1]) == len(xa):
             eb, xb = ordered[n]
+            if RESTRUCTURED_UNDECIDED[0] and len(getattr(ea, 'loops', ())) != len(getattr(eb, 'loops', ())):
+                # one side does per iteration what the other does in one (vectorised) statement: not comparable one to one
+                ctx.ob(rule, f'{title}: {what_label} `{describe(ea)}` stands at a different loop depth than its counterpart in the '
+                       'reference definition (vectorised / de-vectorised): not compared statement by statement', fi, None,
+                       {'code': describe(ea), 'reference': describe(eb)}, node=ea.node, construct=describe(ea) + ' [restructured]')
+                continue
+            ga_, gb_ = guard_of(xa), guard_of(xb)
+            same_guard = ga_ is not None and gb_ is not None and ga_.key == gb_.key and ga_.key != T.TRUE.key
+            nothing = T.lift('<not reached>')
             for (la, ta), (lb, tb) in zip(xa, xb):
+                if same_guard and la != 'guard':
+                    # under one and the same guard the values only matter where it holds: it is carried into the comparison,
+                    # so that a condition which only BECOMES the guard once others are decided is decided with it
+                    ta, tb = T.mk_ite(ga_, ta, nothing), T.mk_ite(gb_, tb, nothing)
                 ctx.formula(rule, f'{title}: {what_label} {la} == reference', fi, ta, tb, node=ea.node,
                             construct=describe(ea) + f' [{la}]')
         else:
